@@ -1042,6 +1042,15 @@ func (s *IPSets) writeUpdates(setName string, w io.Writer, listener UpdateListen
 	if !membersExists {
 		log.WithField("setName", setName).Panic("writeUpdates called for missing IP set?")
 	}
+	if dpExists && dpMeta.DeleteFailed {
+		// The set is wanted again so the record of a past failed deletion is
+		// moot.  Clear it: it is not a property of the set in the dataplane so
+		// it must not force a rewrite or be inherited by a temporary IP set
+		// (which would then be skipped by the deletion logic until the next
+		// resync).
+		dpMeta.DeleteFailed = false
+		s.setNameToProgrammedMetadata.Dataplane().Set(setName, dpMeta)
+	}
 
 	// If the metadata needs to change then we have to write to a temporary IP
 	// set and swap it into place.
